@@ -426,10 +426,15 @@ def shards(tier, seed):
         for i, sk in enumerate(SKELETONS):
             out.append(dict(name=f"t-sk{i:02d}", fn="h_rt", engine="direct", budget=3000, query_timeout=120,
                             kwargs=dict(sk=sk, k=3, pool="thorough", rows=_rows(ns, ni, nc, 154))))
-        out.append(dict(name="t-temporal", fn="h_temporal", engine="direct", budget=3000, query_timeout=120, kwargs=dict(k=3, pool="thorough")))
+        for v in range(4):
+            out.append(dict(name=f"t-temporal{v}", fn="h_temporal", engine="direct", budget=3000, query_timeout=120,
+                            kwargs=dict(k=3, pool="thorough", variants=[v])))
         out.append(dict(name="t-names-inner", fn="h_rt", engine="direct", budget=60,
                         kwargs=dict(sk=SKELETONS[1], k=3, pool="thorough", rows=[[0, 0, 0]], schemes=["isym"])))
         out.append(dict(name="t-env-reader", fn="h_env", engine="direct", budget=60, kwargs=dict(sk=SKELETONS[7])))
+        for name, sk in FINDING_SKELETONS.items():
+            out.append(dict(name="t-" + name, fn="h_rt", engine="direct", budget=300, query_timeout=120,
+                            kwargs=dict(sk=sk, k=3, pool="thorough", rows=[[0, 0, 0], [1, 1, 3]], schemes=["plain", "upper"])))
     return out
 
 
